@@ -61,7 +61,8 @@ SP == 32
 NL == 10
 UsizeMax == <<1, 8, 4, 4, 6, 7, 4, 4, 0, 7, 3, 7, 0, 9, 5, 5, 1, 6, 1, 5>>
 \* (L::MAX_CODE - 1) / 2
-MaxVarOf(ty) == CASE ty = "u8" -> <<1, 2, 7>> [] ty = "u16" -> <<3, 2, 7, 6, 7>> [] ty = "u32" -> <<2, 1, 4, 7, 4, 8, 3, 6, 4, 7>>
+MaxVarOf(ty) == CASE ty = "c100" -> <<4, 9>>             \* a user-defined literal type with MAX_CODE = 100
+                  [] ty = "u8" -> <<1, 2, 7>> [] ty = "u16" -> <<3, 2, 7, 6, 7>> [] ty = "u32" -> <<2, 1, 4, 7, 4, 8, 3, 6, 4, 7>>
                   [] OTHER -> <<9, 2, 2, 3, 3, 7, 2, 0, 3, 6, 8, 5, 4, 7, 7, 5, 8, 0, 7>>
 
 \* the offending token at p: the run of non-blank bytes starting there (possibly empty)
